@@ -34,6 +34,7 @@ def main(n, seed):
                         files.add(k)
                 listing[top] = sorted(files)
             loose = [(f"f{i}",) for i in range(rnd.randint(0, 2))]
+            with_meta = rnd.random() < 0.4
 
             def put(data):
                 h = hashlib.md5(data).hexdigest(); odb.add_bytes(h, data); return h
@@ -44,6 +45,11 @@ def main(n, seed):
                     idx[k] = DataIndexEntry(key=k, meta=Meta(), hash_info=HashInfo("md5", put("/".join(k).encode())))
                 for top, files in listing.items():
                     lst = [{"md5": put(("%s/%s" % (top, "/".join(k))).encode()), "relpath": "/".join(k)} for k in files]
+                    if with_meta:  # a directory object written with per-file metadata (Tree.digest(with_meta=True))
+                        for j, item in enumerate(lst):
+                            item["size"] = 7 + j
+                            if j % 2:
+                                item["isexec"] = True
                     raw = json.dumps(sorted(lst, key=lambda d: d["relpath"]), sort_keys=True).encode()
                     oid = hashlib.md5(raw).hexdigest() + ".dir"; odb.add_bytes(oid, raw)
                     idx[(top,)] = DataIndexEntry(key=(top,), meta=Meta(isdir=True), hash_info=HashInfo("md5", oid))
@@ -91,6 +97,17 @@ def main(n, seed):
                         out.append((kind, k, "raised " + type(e).__name__))
                 return out
 
+            # independent of the library's own expansion: iterating a fresh lazy index yields exactly the keys the listings name
+            try:
+                seen = sorted(k for k, _ in mk(True).iteritems())
+                if seen != sorted(allkeys):
+                    fails.append({"listing": {t: ["/".join(k) for k in v] for t, v in listing.items()}, "with_metadata": with_meta, "ops": [],
+                                  "problem": f"iterating the lazy index yields {seen[:4]}.. but the listings name {sorted(allkeys)[:4]}.."})
+                    continue
+            except Exception as e:  # noqa: BLE001
+                fails.append({"listing": {t: ["/".join(k) for k in v] for t, v in listing.items()}, "with_metadata": with_meta, "ops": [],
+                              "problem": f"iterating the lazy index raised {type(e).__name__}: {str(e)[:100]}"})
+                continue
             lazy_idx = mk(True)
             late = rnd.random() < 0.3
             if late:
@@ -124,7 +141,7 @@ def main(n, seed):
             if problem:
                 fails.append({"listing": {t: ["/".join(k) for k in v] for t, v in listing.items()}, "filter_excludes": banned, "ops": ops, "directory_objects_arrive_late": late, "problem": problem})
     return {"evaluations": n, "distinct_nontrivial": len(distinct), "failures": fails[:3], "n_failures": len(fails),
-            "bound": "<= 2 directory objects (<= 5 files, depth <= 3), <= 2 loose files, <= 4 access operations, in-memory index; in 3 of 10 cases the directory objects arrive in storage only after some accesses (non-raising onerror)"}
+            "bound": "<= 2 directory objects (<= 5 files, depth <= 3), <= 2 loose files, <= 4 access operations, in-memory index; 4 of 10 directory objects carry per-file metadata; in 3 of 10 cases the directory objects arrive in storage only after some accesses (non-raising onerror)"}
 
 
 if __name__ == "__main__":
